@@ -557,7 +557,15 @@ impl<'a> Gen<'a> {
             } else {
                 format!("r{}", i + 1)
             };
-            let before: Vec<String> = names.iter().filter(|n| **n != name).cloned().collect();
+            // references only go to names first defined strictly before this name's first
+            // definition: the reference graph stays acyclic also with repeated names
+            let first = names.iter().position(|n| *n == name).unwrap_or(names.len());
+            let mut before: Vec<String> = Vec::new();
+            for n in names.iter().take(first) {
+                if *n != name && !before.contains(n) {
+                    before.push(n.clone());
+                }
+            }
             let mut rvars = vars.clone();
             let mut lets = Vec::new();
             if self.cfg.vars && self.r.chance(1, 3) {
